@@ -402,8 +402,10 @@ def _clone_position(env, cb, adt, r):
         if v == "LOAD" or is_load(v):
             continue
         p = Prover(fs, ev, ctx)
-        exhausted = any(len(f) == 3 and f[0] == "le" and unclone(f[1]) == Lc and is_load(f[2]) for f in fs) or \
-            any(is_load(x) and p.le(Lc, x) for f in fs if len(f) == 3 for x in (f[1], f[2]))
+        exhausted = any(len(f) == 3 and f[0] == "le" and isinstance(f[2], tuple) and unclone(f[1]) == Lc and is_load(f[2])
+                        for f in fs) or \
+            any(is_load(x) and p.le(Lc, x) for f in fs if len(f) == 3 for x in (f[1], f[2])
+                if isinstance(x, tuple) and x and isinstance(x[0], str))
         vv = unclone(strip_conv(v)) if isinstance(v, tuple) else v
         if not (exhausted and (vv == Lc or p.le(Lc, vv))):
             return False, "it can start at %s%s" % (fmt(vv)[:70], "" if exhausted else " while the original is not known to be exhausted")
